@@ -10,6 +10,9 @@ at the top-level directory.
 */
 
 #include "slu_mt_zdefs.h"
+#ifdef SLU_MT_VERIF
+#include "slu_mt_verif.h"
+#endif /* SLU_MT_VERIF */
 
 void
 pzgstrf_panel_dfs(
@@ -184,6 +187,9 @@ if (jj == BADCOL)
 		    parent[krep] = EMPTY;
 		    repfnz_col[krep] = kperm;
 		    if ( ispruned[krep] ) {
+#ifdef SLU_MT_VERIF
+		    SLUV_TSAN_ACQUIRE(&ispruned[krep]);
+#endif /* SLU_MT_VERIF */
 			if ( SINGLETON( supno[krep] ) )
 			    xdfs = xlsub_end[krep];
 			else xdfs = xlsub[krep];
@@ -257,6 +263,9 @@ if (jj == BADCOL)
 					krep = chrep; /* Go deeper down G(L) */
 					repfnz_col[krep] = chperm;
 					if ( ispruned[krep] ) {
+#ifdef SLU_MT_VERIF
+		    SLUV_TSAN_ACQUIRE(&ispruned[krep]);
+#endif /* SLU_MT_VERIF */
 					    if ( SINGLETON( supno[krep] ) )
 						xdfs = xlsub_end[krep];
 					    else xdfs = xlsub[krep];
